@@ -538,7 +538,7 @@ func TestVerifC30Retention(t *testing.T) {
 		nExtra := rapid.IntRange(0, maxFiles).Draw(t, "nextra")
 		hasLookalikeOfExpired := false
 		for i := 0; i < nExtra && len(segs) > 0; i++ {
-			kind := rapid.SampledFrom([]string{"suffix", "suffix", "nested-abs", "prefix", "foreign", "dir", "symlink-file", "symlink-dir", "segdir"}).Draw(t, "xkind")
+			kind := rapid.SampledFrom([]string{"suffix", "suffix", "undot", "nested-abs", "prefix", "foreign", "dir", "symlink-file", "symlink-dir", "segdir"}).Draw(t, "xkind")
 			// prefer an expired segment as the model
 			base := rapid.SampledFrom(segs).Draw(t, "xbase")
 			for _, s := range segs {
@@ -551,6 +551,19 @@ func TestVerifC30Retention(t *testing.T) {
 			case "suffix":
 				sfx := rapid.SampledFrom([]string{".bak", "~", ".tmp", ".mp4", ".ts", ".part", ".mp4.bak", "0"}).Draw(t, "sfx")
 				f := &c30File{path: base.path + sfx, kind: "lookalike-suffix", expect: "kept", lookBase: base.expired}
+				f.desc = fmt.Sprintf("lookalike[%s]", strings.TrimPrefix(f.path, dir))
+				if add(f, "L", "") && base.expired {
+					hasLookalikeOfExpired = true
+				}
+			case "undot":
+				// the model segment's name with its last '.' replaced by another character: a foreign file, unless the
+				// name is matched with a pattern in which '.' stands for any character (round-3 seeded change C30-s3)
+				i := strings.LastIndexByte(base.path, '.')
+				if i < 0 {
+					continue
+				}
+				ch := rapid.SampledFrom([]string{"-", "x", "_", "0"}).Draw(t, "undotChar")
+				f := &c30File{path: base.path[:i] + ch + base.path[i+1:], kind: "lookalike-undot", expect: "kept", lookBase: base.expired}
 				f.desc = fmt.Sprintf("lookalike[%s]", strings.TrimPrefix(f.path, dir))
 				if add(f, "L", "") && base.expired {
 					hasLookalikeOfExpired = true
